@@ -43,7 +43,11 @@ def _valid(rng, port: int, like: dict | None = None):
     ip = f"192.168.{rng.randint(0, 3)}.{rng.randint(2, 250)}"
     serial = rng.choice(["AA:BB:CC:DD:EE:0%d" % rng.randint(0, 9), "console-%d" % rng.randint(1, 99), ""])
     ident = str(rng.randint(10000, 99999999))
-    name5 = rng.choice(["Home", "Beach House", "Casa, Sur", "a,b,c", "Büro", "客厅", "", "x" * 40])
+    name5 = rng.choice(["Home", "Beach House", "Casa, Sur", "a,b,c", "Büro", "客厅", "", "x" * 40, "Office ", " Den", "Shed\t", " ", "a, ", "Loft\r\n"])
+    if rng.random() < 0.1:
+        ident += rng.choice([" ", "\t", "\n"])  # the last field of an AirTouch 4 answer; inside one on AirTouch 5
+    if rng.random() < 0.05:
+        ip = " " + ip
     if like is not None:
         # a different console that shares all but one or two fields with another one (same id on two wall consoles,
         # same name, same serial text, same address after a DHCP change): not a duplicate
@@ -54,6 +58,13 @@ def _valid(rng, port: int, like: dict | None = None):
         serial = like["serial"] if "serial" in keep else serial + "'"
         ident = like["id"] if "id" in keep else ident
         name5 = like["name"] if "name" in keep and port == 49005 else name5
+        if rng.random() < 0.2:
+            # differs from the other console only by white space at the edge of its last field
+            ip, serial, ident = like["host"], like["serial"], like["id"]
+            if port == 49005:
+                name5 = like["name"] + " "
+            else:
+                ident = like["id"] + " "
         if port == 49004:
             return f"{ip},{serial},AirTouch4,{ident}".encode(), {"host": ip, "serial": serial, "id": ident, "name": "AirTouch 4", "model": "AIRTOUCH_4", "port": 9004}
         return f"{ip},{serial},AirTouch5,{ident},{name5}".encode("utf-8"), {"host": ip, "serial": serial, "id": ident, "name": name5, "model": "AIRTOUCH_5", "port": 9005}
